@@ -10,13 +10,18 @@
    C12_rule_string says it reads back what client.addMatch writes) and by the
    match-rule semantics of Spec/MatchSpec.v.  A text that cannot be read, or
    that names a message type that does not exist, is refused
-   (MatchRuleInvalid). *)
+   (MatchRuleInvalid).  The empty text is the rule without constraints, which
+   every message satisfies (a daemon accepts it; `parse_rule`, the built-in
+   bus's reader, cannot read it, so it is given its meaning here). *)
 From Tx Require Import Lib.Base Model.Router Spec.MatchSpec.
 
 Definition rule_of_text (t : str) : option rule :=
-  match parse_rule t with
-  | Ok r => if registrable r then Some r else None
-  | Err _ => None
+  match t with
+  | [] => Some empty_rule
+  | _ => match parse_rule t with
+         | Ok r => if registrable r then Some r else None
+         | Err _ => None
+         end
   end.
 
 (* the rule texts held for the connection, with multiplicity *)
